@@ -10,6 +10,7 @@ import BtcVerif.Crypto.Murmur3
 import BtcVerif.Crypto.Secp256k1
 import BtcVerif.Model.Keys
 import BtcVerif.Spec.Chain
+import Driver.KeysHist
 
 namespace Driver.C13
 open BtcVerif Driver
@@ -176,6 +177,11 @@ def glue (op : String) (args : List String) : Option String :=
   | _, _ => none
 
 def handle (op : String) (args : List String) : Option String :=
+  if op == "c13.hist" then
+    match args with
+    | steps :: aux => some (KeysHist.run steps aux)
+    | [] => some badArgs
+  else
   match primitives op args with
   | some r => some r
   | none => glue op args
